@@ -688,6 +688,15 @@ def nontrivial(op, out):
     return None
 
 
+def extra_stage_with_directions(rep, broken, exe, tier):
+    """C09's own extra stage, then the direction-provider layer built on the L-BFGS model
+    (checks/dirs.py: wrappers regenerated, Props/Directions theorems, op-sequence correspondence on the
+    real provider objects, oracle-free PANOC replay)."""
+    extra_stage(rep, broken, exe, tier)
+    import dirs
+    dirs.extra_stage(rep, broken, exe, tier)
+
+
 def extra_stage(rep, broken, exe, tier):
     rep.cov['c09_excluded_points'] = dict(STATS)
     rep.note('excluded points of apply_eq_dense_bfgs / run_goodC on the real code (a stored pair with ⟨y,s⟩ = 0; the '
@@ -713,7 +722,7 @@ if __name__ == '__main__':
         harness_name='c09',
         harness_sources=[os.path.join(C.VERIF, 'harness', 'c09.cpp')]
         + C.repo_lib_sources(['accelerators/lbfgs.cpp']),
-        gen_ops=gen_ops, monitor=monitor, nontrivial=nontrivial, extra_stage=extra_stage,
+        gen_ops=gen_ops, monitor=monitor, nontrivial=nontrivial, extra_stage=extra_stage_with_directions,
         n_quick=30000, n_thorough=400000,
         trusted_base=[
             'Lean 4.33 kernel + Mathlib (axioms: propext, Classical.choice, Quot.sound)',
